@@ -9,6 +9,9 @@ int g_handler;
 int g_may_throw;
 struct vc_snap_t vc_snap;
 size_t gk;
+#ifdef VC_UNIT_FP
+dig_t g_p[RLC_FP_DIGS];
+#endif
 dig_t g_dig0;
 unsigned char g_byte0;
 dig_t g_cy[VC_MAXN + 2];
